@@ -67,6 +67,30 @@ type Violation struct {
 	Race     bool            `json:"race,omitempty"`
 }
 
+// stuckReport extracts the scenario name and the report of the scheduler's watchdog from a shard's output.
+func stuckReport(out string) (scenario, report string) {
+	i := strings.Index(out, "MC-STUCK scenario=")
+	if i < 0 {
+		return "", ""
+	}
+	rest := out[i:]
+	if j := strings.Index(rest, "MC-STUCK-END"); j > 0 {
+		rest = rest[:j]
+	}
+	line := rest
+	if k := strings.IndexByte(line, '\n'); k > 0 {
+		line = line[:k]
+	}
+	var sc string
+	if _, err := fmt.Sscanf(line, "MC-STUCK scenario=%q", &sc); err != nil {
+		return "", ""
+	}
+	if len(rest) > 3000 {
+		rest = rest[:3000]
+	}
+	return sc, rest
+}
+
 // Result mirrors seqmc.Result.
 type Result struct {
 	Property    string                   `json:"property"`
@@ -461,6 +485,28 @@ func runCheck(chk *Check, tier, replay string, keep bool, only string) int {
 				outs[i] = string(out)
 				rb, rerr := os.ReadFile(outf)
 				if rerr != nil {
+					if sc, rep := stuckReport(string(out)); sc != "" {
+						// the scheduler's watchdog gave up on an execution that neither reached a scheduling
+						// point nor ended: run that scenario once more; a hang that comes back is a verdict
+						// ("the execution never ends"), one that does not is a machine hiccup
+						cmd2 := exec.Command(j.b.bin, "-test.run", "^"+j.b.u.Test+"$", "-test.timeout", "0", "-test.v")
+						cmd2.Dir = wd
+						cmd2.Env = append(append([]string{}, cmd.Env...), "MC_ONLY="+sc)
+						t2 := time.AfterFunc(hard, func() {
+							if cmd2.Process != nil {
+								_ = cmd2.Process.Kill()
+							}
+						})
+						out2, _ := cmd2.CombinedOutput()
+						t2.Stop()
+						if sc2, _ := stuckReport(string(out2)); sc2 == sc {
+							results[i] = &Result{Property: chk.ID, Exhaustive: false, Caps: []string{"execution stuck in " + sc},
+								Violations: []Violation{{Property: chk.ID, Scenario: sc, Sig: "end:stuck", Replays: 5, Unit: j.b.u.Name, Tags: j.b.u.Tags, Race: j.b.u.Race,
+									Msg: "an execution of the real code neither reached a scheduling point (system call, atomic operation, lock, channel operation) nor ended: a thread runs in an endless loop (or blocks for real) while holding the scheduler's token; reproduced when the scenario was run again. Watchdog report:\n" + rep}}}
+							return
+						}
+						fmt.Fprintf(os.Stderr, "WARN property=%s: unit %s shard %d got stuck in scenario %q once and not again; not reported as violation\n", chk.ID, j.b.u.Name, j.shard, sc)
+					}
 					errs[i] = fmt.Errorf("unit %s shard %d produced no result (%v)\n%s", j.b.u.Name, j.shard, err, tail(string(out), 60))
 					return
 				}
